@@ -268,6 +268,15 @@ def directed_modules(codec):
                                                Member('z', Ty('BOOLEAN'))])))
     items.append(('M', 'S2', [{'n': {'x': 2, 'y': True}, 'x': 5, 'z': False}, {'n': {'x': 9, 'y': False}, 'x': 3, 'z': True},
                               {'n': {'x': 9, 'y': True}, 'x': 5, 'z': True}, {'n': {'y': True}, 'z': False}]))
+    # CHOICE alternatives with hand-written tags of every class and of one, two and three octets (OER writes them)
+    from ..asn import Tag
+    alts = []
+    for i, (cls, num) in enumerate([('CONTEXT', 0), ('CONTEXT', 62), ('CONTEXT', 63), ('CONTEXT', 200),
+                                    ('APPLICATION', 5), ('APPLICATION', 63), ('APPLICATION', 100),
+                                    ('APPLICATION', 16384), ('PRIVATE', 62), ('PRIVATE', 127), ('PRIVATE', 128)]):
+        alts.append(Member('t%d' % i, Ty('INTEGER', rng=Rng(0, 255), tag=Tag(cls, num, None))))
+    m.types.append(('CT', Ty('CHOICE', root=alts)))
+    items.append(('M', 'CT', [('t%d' % i, (i * 37) % 256) for i in range(len(alts))]))
     m.types.append(('SO', Ty('SEQUENCE', root=[
         Member('o', Ty('OCTET STRING', size=Rng(0, 5)), has_default=True, default=b'\x01\x02', default_txt="'0102'H"),
         Member('z', Ty('BOOLEAN'))])))
